@@ -16,7 +16,7 @@ THEOREMS = ["FP.Props.C13.solved_iff_optimal", "FP.Props.C13.getter_only_when_op
             "FP.Props.C13.search_sound", "FP.Props.C13.search_complete",
             "FP.Props.C13.no_answer_after_inconclusive", "FP.Props.C13.search_trace",
             "FP.Props.C13.timed_sound", "FP.Props.C13.timed_complete",
-            "FP.Props.C13.timed_no_answer_after_inconclusive", "FP.Props.C13.skip_violates",
+            "FP.Props.C13.timed_no_answer_after_inconclusive", "FP.Props.C13.skip_violates", "FP.Props.C13.given_sound", "FP.Props.C13.given_no_answer_after_inconclusive",
             "FP.Props.C13.npo_returns_only_optimal"]
 IMPORTS = ["FP.Props.C13"]
 RULE = ("for each generated input the fault-free run is recorded, then every solver-invocation position (and, in the "
@@ -28,7 +28,7 @@ MODEL_SCOPE = ("modelled: the k-loops of MinFlowDecomp, MinFlowDecompCycles (wit
 TRUSTED = ["status strings of highspy map to {optimal, infeasible, other} as in Driver.parseStatus"]
 ASSUMPTIONS = ["a forced status stands for what a real time limit/interrupt would report at that invocation"]
 
-INCONCLUSIVE = ["kTimeLimit", "kInterrupt", "kUnknown", "custom_timeout"]
+INCONCLUSIVE = ["kTimeLimit", "kInterrupt", "kUnknown", "custom_timeout", "sigalrm"]
 
 
 def norm(st):
@@ -39,7 +39,22 @@ def norm(st):
 
 # ------------------------------------------------------------------ inputs
 
+def diamonds(rng):
+    """chain of two diamonds whose flow splits differ: width 2 but three paths needed, so the search visits
+    more than one k (and a guessed-weights decomposition is larger than the lower bound)"""
+    tot = rng.randint(5, 9)
+    a = rng.randint(1, tot - 1)
+    b = rng.choice([x for x in range(1, tot) if x != a and x != tot - a])
+    G = nx.DiGraph()
+    for (u, v, f) in [("s", "a1", a), ("a1", "m", a), ("s", "a2", tot - a), ("a2", "m", tot - a),
+                      ("m", "b1", b), ("b1", "t", b), ("m", "b2", tot - b), ("b2", "t", tot - b)]:
+        G.add_edge(u, v, flow=f)
+    return G
+
+
 def mfd_input(rng):
+    if rng.random() < 0.35:
+        return diamonds(rng)
     nodes, edges = gen.dag(rng, n=rng.randint(4, 7), p=rng.choice([0.4, 0.6]), min_edges=4)
     f, paths, ws = gen.flow_from_paths(rng, nodes, edges, wtype=int)
     G = nx.DiGraph(); G.add_nodes_from(nodes)
@@ -99,11 +114,13 @@ def run_search(ctx, kind, make, kclasses, plan, late_at=None):
             patched = cls.solve_time_elapsed
             count = {"n": 0}
             me_tr = tr
-            cls.solve_time_elapsed = property(lambda self: (1e18 if len(me_tr.log) > late_at else 0.0))
+            cls.solve_time_elapsed = property(lambda self: (1e18 if sum(1 for e_ in me_tr.log if not e_[3]) > late_at else 0.0))
         try:
             try:
                 ret = m.solve()
                 exc = None
+            except SystemExit as e:
+                ret, exc = None, "SystemExit(%r)" % (e.code,)
             except Exception as e:
                 ret, exc = None, repr(e)
         finally:
@@ -119,22 +136,56 @@ def run_search(ctx, kind, make, kclasses, plan, late_at=None):
         except Exception:
             pass
         lo = m.get_lowerbound_k() if exc is None else None
-    return {"trace": [(k, st) for (k, st, s) in tr.log], "ret": ret, "exc": exc, "solved": solved,
-            "answer": answer, "getter_ok": getter_ok, "lo": lo, "invocations": sf.count, "model": m}
+    ktrace = [(k, st) for (k, st, s, g) in tr.log if not g]
+    given = [(k, st, s) for (k, st, s, g) in tr.log if g]
+    given_count = None
+    gm = getattr(m, "_given_weights_model", None)
+    if gm is not None and gm.is_solved():
+        for kw in ({"remove_empty_paths": True}, {"remove_empty_walks": True}):
+            try:
+                sol = gm.get_solution(**kw)
+                given_count = len(sol.get("paths", sol.get("walks", [])))
+                break
+            except TypeError:
+                continue
+    return {"trace": ktrace, "ret": ret, "exc": exc, "solved": solved, "given_trace": given, "given_count": given_count,
+            "answer": answer, "getter_ok": getter_ok, "lo": lo, "invocations": sf.count, "model": m,
+            "alarms": list(sf.alarms), "solver_log": list(sf.log)}
 
 
 def compare(ctx, suite, label, inp_desc, res, kind, hi, late=None):
     """trace equality with the Lean machine + the independent trace oracle"""
     trace = res["trace"]
     lo = res["lo"]
+    # a real SIGALRM delivered during a solver invocation must make that run inconclusive
+    for (idx, st) in res.get("solver_log", []):
+        if idx in res.get("alarms", []) and st in ("kOptimal", "kInfeasible"):
+            ctx.violation(f"{label}: the custom time-out alarm fired during solver invocation {idx} but the model status is reported as {st}",
+                          {"class": label, "input": inp_desc, "invocation": idx, "status": st}, site=label + ".custom_timeout")
+    if res["exc"] and res["exc"].startswith("SystemExit"):
+        ctx.violation(f"{label}.solve() terminated the interpreter with {res['exc']} instead of reporting not-solved",
+                      {"class": label, "input": inp_desc}, site=label + ".solve:exit")
+        return None
+    if lo is None:
+        lo = trace[0][0] if trace else 0
+    if res.get("given_count") is not None:
+        if kind == "timed" and late and any(late):
+            return None      # ready-made decomposition combined with a clock hit: not modelled, skipped
+        kind = "given"
     req = {"op": "search", "kind": kind, "lo": lo, "hi": hi, "script": [st for (_, st) in trace]}
+    if kind == "given":
+        req["given"] = res["given_count"]
     if kind == "timed":
         req["late"] = late
     model = ctx.driver.call(req)
     impl_tried = [[k, norm(st)] for (k, st) in trace]
     # the accepted k is the k of the last model tried (get_solution may drop empty routes, so the
     # number of returned routes can be smaller than k)
-    impl_solved = (trace[-1][0] if trace else None) if res["solved"] else None
+    impl_solved = None
+    if res["solved"]:
+        impl_solved = trace[-1][0] if (trace and trace[-1][1] == "kOptimal") else res.get("given_count")
+        if impl_solved is None and trace:
+            impl_solved = trace[-1][0]
     case = {"class": label, "input": inp_desc, "lo": lo, "hi": hi, "trace": trace, "late": late,
             "ret": res["ret"], "solved": res["solved"], "answer": res["answer"]}
     ctx.rep.cov["traces_validated_against_impl"] += 1
@@ -148,13 +199,17 @@ def compare(ctx, suite, label, inp_desc, res, kind, hi, late=None):
     # oracle (property text): an answer only if its own k was proven optimal and all smaller tried ones infeasible
     ctx.rep.cov["oracle_evaluations"] += 1
     if res["solved"] or res["getter_ok"] or res["ret"]:
-        ok = bool(trace) and trace[-1][1] == "kOptimal" and all(st == "kInfeasible" for (_, st) in trace[:-1])
+        if res.get("given_count") is not None and not (trace and trace[-1][1] == "kOptimal"):
+            # the ready-made decomposition was taken: every k-model tried before must have been proven infeasible
+            ok = all(st == "kInfeasible" for (_, st) in trace) and (not trace or trace[-1][0] < res["given_count"])
+        else:
+            ok = bool(trace) and trace[-1][1] == "kOptimal" and all(st == "kInfeasible" for (_, st) in trace[:-1])
         if late is not None and any(late[:len(trace)]):
             ok = False
         if not ok:
             ctx.violation(f"{label}: answer reported although the status sequence was {trace} (late={late})", case,
                           site=label + ".solve")
-        elif res["answer"] is not None and res["answer"] != trace[-1][0] and res["answer"] > trace[-1][0]:
+        elif trace and res["answer"] is not None and res["answer"] > max(trace[-1][0], res.get("given_count") or 0):
             ctx.violation(f"{label}: returned {res['answer']} routes from the model for k={trace[-1][0]}", case,
                           site=label + ".solve")
     return case
@@ -166,14 +221,15 @@ def sweep(ctx, suite, label, kind, make, kclasses, hi_of, inp_desc, pairs=False,
     late0 = [False] * len(base["trace"]) if timed else None
     c = compare(ctx, suite, label, inp_desc, base, kind, hi, late0)
     ctx.rep.count(suite, [label, inp_desc, "nofault"], nontrivial=len(base["trace"]) > 1, hist=[label, "fault-free"])
-    ctx.rep.sample({"class": label, "fault_plan": {}, "trace": base["trace"], "solved": base["solved"]})
+    ctx.rep.sample({"class": label, "fault_plan": {}, "trace": base["trace"], "solved": base["solved"],
+                    "given_weights_model": base.get("given_trace"), "given_count": base.get("given_count")})
     n = base["invocations"]
     plans = [{j: st} for j in range(n) for st in INCONCLUSIVE]
     # longer searches: the first j invocations are forced infeasible, then an inconclusive one / the truth
     for j in (1, 2) if not pairs else (1, 2, 3):
         pre = {i: "kInfeasible" for i in range(j)}
         plans.append(dict(pre))
-        for st in (INCONCLUSIVE if pairs else ["kTimeLimit", "custom_timeout"]):
+        for st in (INCONCLUSIVE if pairs else ["kTimeLimit", "sigalrm"]):
             plans.append({**pre, j: st})
     if pairs:
         plans += [{i: "kTimeLimit", j: "kUnknown"} for i in range(n) for j in range(i + 1, n)]
@@ -204,10 +260,14 @@ def run(ctx):
         G = mfd_input(rng)
         greedy = rng.random() < 0.3
         opts = {"optimize_with_greedy": greedy}
+        if it % 3 == 1:
+            opts["optimize_with_guessed_weights"] = True
+        if it % 3 == 2:
+            opts["use_min_gen_set_lowerbound"] = True
         mk = lambda: fp.MinFlowDecomp(G, flow_attr="flow", weight_type=int, optimization_options=dict(opts),
                                       solver_options={"time_limit": 300})
         sweep(ctx, "K3.MinFlowDecomp", "MinFlowDecomp", "stop", mk, [fp.kFlowDecomp],
-              lambda m: ctx.model_hi("MinFlowDecomp", m), dict(gdesc(G), greedy=greedy), pairs=thorough)
+              lambda m: ctx.model_hi("MinFlowDecomp", m), dict(gdesc(G), options=dict(opts)), pairs=thorough)
     # ---- MinPathCover
     for it in range(ctx.n(5, 30)):
         G = mfd_input(rng)
@@ -223,7 +283,13 @@ def run(ctx):
         if not all(sum(G[u][v]["flow"] for u in G.predecessors(v)) == sum(G[v][w]["flow"] for w in G.successors(v))
                    for v in G if G.in_degree(v) and G.out_degree(v)):
             continue
-        mk = lambda: fp.MinFlowDecompCycles(G, flow_attr="flow", weight_type=int, solver_options={"time_limit": 300})
+        copts = {}
+        if it % 3 == 1:
+            copts["optimize_with_guessed_weights"] = True
+        if it % 3 == 2:
+            copts["use_min_gen_set_lowerbound"] = True
+        mk = lambda: fp.MinFlowDecompCycles(G, flow_attr="flow", weight_type=int, optimization_options=dict(copts),
+                                            solver_options={"time_limit": 300})
         sweep(ctx, "K3.MinFlowDecompCycles", "MinFlowDecompCycles", "timed", mk, [fp.kFlowDecompCycles],
               lambda m: ctx.model_hi("MinFlowDecompCycles", m), gdesc(G), pairs=False, timed=True)
     for it in range(ctx.n(5, 30)):
@@ -319,13 +385,13 @@ def run_npo(ctx):
         for plan in [{}] + [{j: st} for j in range(n) for st in ("kTimeLimit", "kUnknown")]:
             m, ret, exc, solved, ansk, lo, log, sf = one(plan)
             # objective per k from the k-models themselves (only defined when solved)
-            trace = [(k, st) for (k, st, s) in log]
+            trace = [(k, st) for (k, st, s, g_) in log]
             objs = []
-            for (k, st, s) in log:
+            for (k, st, s, g_) in log:
                 objs.append("0")
             # recompute objective values of solved models for the script
             req_obj = []
-            for (k, st, s) in log:
+            for (k, st, s, g_) in log:
                 if s:
                     mm = cls(G=G, flow_attr="flow", weight_type=int, k=k); mm.solve()
                     req_obj.append(str(frac(round(mm.get_objective_value()))))
